@@ -137,9 +137,12 @@ def run(ctx):
     # a covering selection in the quick tier: every mode x every chain map, shifts varied
     if not ctx.thorough():
         sel, seen = [], set()
+        cover = []
         for k, d in enumerate(descs):
             key = (d["mode"], json.dumps(d["cm"], sort_keys=True), d["sa"] == 3, d["sb"] == 3, abs(d["sa"]) == 1000, abs(d["sb"]) == 1000)
             plain = d["mode"] == "none" and d["cm"]["A"] == "A" and d["cm"]["B"] == "B"     # every pair of shifts
+            if key not in seen:
+                cover.append(d)
             if key not in seen or plain or (k % 37 == ctx.seed % 37):
                 seen.add(key)
                 sel.append(d)
@@ -149,7 +152,11 @@ def run(ctx):
             ("1HPX-swap-shift", C.body(C.test_pdb_text("1HPX")), {"mode": "none", "sa": -40, "sb": 100, "cm": {"A": "B", "B": "A"}})]
     if ctx.thorough():
         full.append(("4DFR-shift-B", C.body(C.test_pdb_text("4DFR")), {"mode": "none", "sa": 0, "sb": 3, "cm": {"A": "A", "B": "B"}}))
-    work = [(n, ls, d) for n, ls in structures(ctx) for d in descs] + full
+    if ctx.thorough():
+        work = [(n, ls, d) for n, ls in structures(ctx) for d in descs] + full
+    else:
+        # the first structure sees the whole selection (every pair of shifts), the others the covering part
+        work = [(n, ls, d) for si, (n, ls) in enumerate(structures(ctx)) for d in (descs if si == 0 else cover[(si + ctx.seed) % 3::3])] + full
     base_cache = {}
     for name, lines, d in work:
         new = apply_descriptor(lines, d)
@@ -169,8 +176,34 @@ def run(ctx):
             continue
         ctx.nontriv((name, json.dumps(d, sort_keys=True)))
         rels.append(relations.relate("SameUpToLabels", ra, text_a, rb, text_b, meta=meta))
+    # the same relabellings under a chain selection: `-c <first chain>` before and after renaming
+    sel_base = {}
+    done = set()
+    cms = sorted({json.dumps(d["cm"], sort_keys=True) for d in descs})
+    for name, lines, d in [(n, ls, {"mode": "none", "sa": 0, "sb": 0, "cm": json.loads(cm)}) for n, ls in structures(ctx)[:2] for cm in cms]:
+        cmkey = json.dumps(d["cm"], sort_keys=True)
+        new = apply_descriptor(lines, d)
+        chains = chain_order(lines)
+        if new is None or len(chains) < 2:
+            continue
+        text_a, text_b = C.join(lines), C.join(new)
+        if name not in sel_base:
+            sel_base[name] = runner.run(text_a, ["-q", "-c", chains[0]], write=False)
+            ctx.count()
+        ra = sel_base[name]
+        rb = runner.run(text_b, ["-q", "-c", d["cm"]["A"]], write=False)
+        ctx.count()
+        if ra.exc is not None or rb.exc is not None:
+            if rb.exc is not None and ra.exc is None:
+                ctx.violation(f"relabel:exception:chain-selection:{name}", f"relabelled input with -c raises {rb.exc!r}",
+                              {"pdb": text_b, "orig": text_a, "desc": d})
+            continue
+        ctx.nontriv((name, cmkey, "-c"))
+        rels.append(relations.relate("SameUpToLabels", ra, text_a, rb, text_b,
+                                     meta={"input": name + " -c", "desc": d, "pdb": text_b, "orig": text_a}))
     viol = relations.validate(ctx, rels, ["SameConfs", "SameUpToLabels"], "relabelled vs baseline")
     reported = set()
+    pending = []
     for inv, lst in sorted(viol.items()):
         for rel in lst:
             m = rel["meta"]
@@ -182,18 +215,29 @@ def run(ctx):
             if key in reported:
                 continue
             reported.add(key)
-            # attribution by diagnostic patch (F3a): does the difference vanish under the presumed repair?
-            if twins == "twins":
-                with patches.f3a_same_residue_with_icode() as ok:
-                    if ok:
-                        pa = runner.run(m["orig"], ["-q"], write=False)
-                        pb = runner.run(m["pdb"], ["-q"], write=False)
-                        if pa.exc is None and pb.exc is None:
-                            prel = relations.relate("SameUpToLabels", pa, m["orig"], pb, m["pdb"], meta=m)
-                            pv = relations.validate(ctx, [prel], ["SameConfs", "SameUpToLabels"], "diagnostic patch F3a")
-                            if not pv:
-                                key = "relabel:twins:desolvation-same-residue-test-ignores-icode"
-            ctx.violation(key, f"{m['input']} relabelled by {d}: {diffs}", {"pdb": m["pdb"], "orig": m["orig"], "desc": d})
+            pending.append((key, twins, m, d, diffs))
+    # attribution by diagnostic patch (F3a): does the difference vanish under the presumed repair? (one TLC run for all)
+    prels, pidx = [], []
+    tw = [k for k, p_ in enumerate(pending) if p_[1] == "twins"]
+    if tw:
+        with patches.f3a_same_residue_with_icode() as ok:
+            if ok:
+                for k in tw:
+                    m = pending[k][2]
+                    pa = runner.run(m["orig"], ["-q"] + (["-c", chain_order(m["orig"].splitlines())[0]] if m["input"].endswith(" -c") else []), write=False)
+                    pb = runner.run(m["pdb"], ["-q"] + (["-c", m["desc"]["cm"]["A"]] if m["input"].endswith(" -c") else []), write=False)
+                    if pa.exc is None and pb.exc is None:
+                        prels.append(relations.relate("SameUpToLabels", pa, m["orig"], pb, m["pdb"], meta=dict(m, _k=k)))
+                        pidx.append(k)
+    attributed = set()
+    if prels:
+        pv = relations.validate(ctx, prels, ["SameConfs", "SameUpToLabels"], "diagnostic patch F3a")
+        still = {rel["meta"]["_k"] for lst in pv.values() for rel in lst}
+        attributed = set(pidx) - still
+    for k, (key, twins, m, d, diffs) in enumerate(pending):
+        if k in attributed:
+            key = "relabel:twins:desolvation-same-residue-test-ignores-icode"
+        ctx.violation(key, f"{m['input']} relabelled by {d}: {diffs}", {"pdb": m["pdb"], "orig": m["orig"], "desc": d})
     if rels:
         ctx.sample({"input": rels[0]["meta"]["input"], "descriptor": rels[0]["meta"]["desc"]})
     ctx.extra["relation_pairs"] = len(rels)
